@@ -153,5 +153,34 @@ def main_shunt():
     sys.exit(1 if fails else 0)
 
 
+def main_shunt_dc():
+    """DC power flow (all voltage magnitudes 1 p.u. in the model) with shunt-type elements at a generator bus whose setpoint is not 1 p.u."""
+    fails = []
+    net = pp.create_empty_network()
+    b = pp.create_buses(net, 3, 20.)
+    pp.create_ext_grid(net, b[0], vm_pu=1.0)
+    pp.create_line_from_parameters(net, b[0], b[1], 5., 0.12, 0.11, 250., 0.6)
+    pp.create_line_from_parameters(net, b[1], b[2], 5., 0.12, 0.11, 250., 0.6)
+    pp.create_gen(net, b[1], p_mw=1., vm_pu=1.05)
+    pp.create_shunt(net, b[1], q_mvar=0., p_mw=2.0)
+    pp.create_ward(net, b[1], ps_mw=0.3, qs_mvar=0., pz_mw=0.5, qz_mvar=0.)
+    pp.create_load(net, b[2], 3., 1.)
+    pp.rundcpp(net)
+    for bus in net.bus.index:
+        branch = net.res_line.p_from_mw[net.line.from_bus == bus].sum() + net.res_line.p_to_mw[net.line.to_bus == bus].sum()
+        el = sum(net["res_" + et].p_mw[net[et].bus == bus].sum() for et in ("load", "shunt", "ward")) \
+            - net.res_ext_grid.p_mw[net.ext_grid.bus == bus].sum() - net.res_gen.p_mw[net.gen.bus == bus].sum()
+        if abs(branch + el) > 1e-6:
+            fails.append(f"DC power flow, bus {bus}: the lines take {branch:.6f} MW and the elements report {el:.6f} MW (shunt "
+                         f"{net.res_shunt.p_mw.sum():.4f}, ward {net.res_ward.p_mw.sum():.4f}): no nodal balance")
+        if abs(net.res_bus.p_mw.at[bus] - el) > 1e-6:
+            fails.append(f"DC power flow, bus {bus}: res_bus.p_mw = {net.res_bus.p_mw.at[bus]:.6f} but the elements at the bus report {el:.6f}")
+    for f in fails:
+        print("REPRODUCED:", f)
+    if not fails:
+        print("not reproduced: DC shunt / ward results balance at their buses")
+    sys.exit(1 if fails else 0)
+
+
 if __name__ == "__main__":
     main()
